@@ -440,6 +440,59 @@ def run_text(ctx):
         ctx.nontriv(c)
     ctx.streams.append({'stream': 'textrun', 'cases': len(cases)})
 
+    # one text VALUE over a history: observables before and after 转换数值 (the one operation that rewrites its receiver),
+    # and self-consistency of what the real code reports at every moment: 长度 = |字符组|, 取样 = that range of 字符组
+    cases = []
+    marks = [[0x2A, 0x5E], [0x2A, 0x31, 0x30, 0x5E]]
+    for _ in range(ctx.n(500, 8000)):
+        r = rng.random()
+        if r < 0.5:
+            t = list(rng.choice(['1', '2.5', '-3', '12', '6.02', '0', '多', '1e', ''])).copy()
+            t = [ord(c) for c in t] + rng.choice(marks) + [ord(c) for c in rng.choice(['3', '-2', '23', '', '字', '+1'])]
+            if rng.random() < 0.3:
+                t += rng.choice(marks) + [ord(rng.choice('12'))]
+        elif r < 0.8:
+            t = list(rng.choice(alltexts))
+            k = rng.randint(0, len(t))
+            t = t[:k] + rng.choice(marks) + t[k:]
+        else:
+            t = list(rng.choice(alltexts))
+        n = len(t)
+        steps = ''.join(rng.choice('lcsv') for _ in range(rng.randint(1, 3))) + 'n' + ''.join(rng.choice('lcsvn') for _ in range(rng.randint(1, 4)))
+        steps += 'lcv'
+        cases.append('texthist %s %d %d %s' % (cps(t), 4 * rng.randint(-(n + 1), n + 1), 4 * rng.randint(-(n + 1), n + 1), steps))
+    go, model, spec = three(ctx, cases)
+    rewritten = 0
+    for c, g, m, s in zip(cases, go, model, spec):
+        ctx.evaluations += 1
+        if g != m:
+            ctx.disagreement('texthist', c, g, m)
+        if g != s:
+            ctx.violation('texthist', c, g, s)
+        # self-consistency of the real code's own reports (no model involved)
+        steps = c.split(' ')[4]
+        fields = g.split(' | ')
+        if len(fields) == len(steps):
+            cur_len = cur_chars = None
+            for st, fv in zip(steps, fields):
+                if st == 'n':
+                    cur_len = cur_chars = None
+                elif st == 'l' and fv.startswith('ok '):
+                    cur_len = int(fv[3:])
+                    if cur_chars is not None and cur_chars != cur_len:
+                        ctx.violation('texthist-selfconsistent', c, g, 'length %d but %d characters in the character array' % (cur_len, cur_chars))
+                elif st == 'c' and fv.startswith('ok '):
+                    cur_chars = int(fv.split(' ')[1])
+                    if cur_len is not None and cur_chars != cur_len:
+                        ctx.violation('texthist-selfconsistent', c, g, 'length %d but %d characters in the character array' % (cur_len, cur_chars))
+        tail = g.split(' | ')
+        if len(tail) >= 2 and tail[0] != tail[-1]:
+            rewritten += 1
+        ctx.nontriv(c)
+    ctx.count('texthist_text_rewritten', rewritten)
+    ctx.sample({'op': cases[0], 'go': go[0], 'model': model[0], 'spec': spec[0]})
+    ctx.streams.append({'stream': 'texthist', 'cases': len(cases), 'rewritten': rewritten})
+
 
 def judge_fmt(ctx, stream, case, args, g, m, s):
     """returns (model_ok, spec_ok) after recording"""
